@@ -123,23 +123,39 @@ func (db *MultiBucketBackend) ListBucket(bucket string, prefix *gofakes3.Prefix,
 
 	path, part, ok := prefix.FilePrefix()
 	if ok {
-		return db.getBucketWithFilePrefixLocked(bucket, path, part)
+		return db.getBucketWithFilePrefixLocked(bucket, prefix.Prefix, path, part)
 	} else {
 		return db.getBucketWithArbitraryPrefixLocked(bucket, prefix)
 	}
 }
 
-func (db *MultiBucketBackend) getBucketWithFilePrefixLocked(bucket string, prefixPath, prefixPart string) (*gofakes3.ObjectList, error) {
-	bucketPath := path.Join(bucket, prefixPath)
-
-	dirEntries, err := afero.ReadDir(db.bucketFs, filepath.FromSlash(bucketPath))
-	if os.IsNotExist(err) {
+func (db *MultiBucketBackend) getBucketWithFilePrefixLocked(bucket string, prefix string, prefixPath, prefixPart string) (*gofakes3.ObjectList, error) {
+	if stat, err := db.bucketFs.Stat(filepath.FromSlash(bucket)); os.IsNotExist(err) {
 		return nil, gofakes3.BucketNotFound(bucket)
 	} else if err != nil {
 		return nil, err
+	} else if !stat.IsDir() {
+		return nil, fmt.Errorf("gofakes3: expected %q to be a bucket path", bucket)
 	}
 
 	response := gofakes3.NewObjectList()
+
+	bucketPath := path.Join(bucket, prefixPath)
+
+	// If the directory part of the prefix does not exist, or is an object
+	// rather than a directory, no key can start with the prefix:
+	if stat, err := db.bucketFs.Stat(filepath.FromSlash(bucketPath)); os.IsNotExist(err) {
+		return response, nil
+	} else if err != nil {
+		return nil, err
+	} else if !stat.IsDir() {
+		return response, nil
+	}
+
+	dirEntries, err := afero.ReadDir(db.bucketFs, filepath.FromSlash(bucketPath))
+	if err != nil {
+		return nil, err
+	}
 
 	for _, entry := range dirEntries {
 		object := entry.Name()
@@ -151,8 +167,14 @@ func (db *MultiBucketBackend) getBucketWithFilePrefixLocked(bucket string, prefi
 			continue
 		}
 
+		// path.Join cleans the path, so a prefix like "a//" or "./a" ends up
+		// reading a directory whose keys do not literally start with it:
+		if !strings.HasPrefix(objectPath, prefix) {
+			continue
+		}
+
 		if entry.IsDir() {
-			response.AddPrefix(path.Join(prefixPath, prefixPart, entry.Name()) + "/")
+			response.AddPrefix(objectPath + "/")
 
 		} else {
 			size := entry.Size()
